@@ -44,8 +44,20 @@ def _emit(ev):
 
 
 def _h(a):
+    """Cheap content fingerprint of an array (runs at memory bandwidth): wrapping 64-bit sum and
+    xor of the raw words plus shape/dtype.  An in-place edit that leaves both unchanged would have
+    to be adversarial."""
     a = np.ascontiguousarray(a)
-    return hashlib.blake2b(a.view(np.uint8).reshape(-1).data if a.size else b"", digest_size=8).hexdigest() + f":{a.shape}"
+    if a.dtype == object or a.size == 0:
+        return f"{a.dtype}:{a.shape}"
+    raw = a.view(np.uint8).reshape(-1)
+    n8 = (raw.size // 8) * 8
+    w = raw[:n8].view(np.uint64)
+    with np.errstate(over="ignore"):
+        s1 = int(w.sum(dtype=np.uint64)) if n8 else 0
+        s2 = int(np.bitwise_xor.reduce(w)) if n8 else 0
+    tail = bytes(raw[n8:]).hex()
+    return f"{a.dtype}:{a.shape}:{s1:x}:{s2:x}:{tail}"
 
 
 # ---------------------------------------------------------------------------------------------
@@ -136,7 +148,10 @@ def _install_angular():
         try:
             m, d = self.method, int(self.degree)
             p, w = _shipped(m, d, int(self.size))
-            ok = lambda x, y: "ok" if x.shape == y.shape and np.allclose(x, y, rtol=1e-12, atol=1e-13) else "dirty"  # noqa: E731
+            def ok(x, y):
+                if x.shape != y.shape:
+                    return "dirty"
+                return "ok" if (np.array_equal(x, y) or np.allclose(x, y, rtol=1e-12, atol=1e-13)) else "dirty"
             ent = caches[m].get(d)
             pa = wa = False
             clean = True
